@@ -96,6 +96,45 @@ fn key_roundtrips(ctx: &mut Ctx, d: &BigUint, cls: &str) {
             o => ctx.violation(&format!("Sm2PublicKey::new:valid-{}:{}", if compressed { "compressed" } else { "uncompressed" }, oc(&o)), json!({"case": w, "bytes": hex::encode(&enc)})),
         }
     }
+    // ---- encoders on key objects of every provenance (derived keys carry a Jacobian point with Z != 1)
+    let mut pp = Prng::new(d.bits() ^ 0x77, "prov");
+    for how in 0..3u64 {
+        let Some((kobj, skobj)) = lib_keys(d, how, &mut pp) else {
+            ctx.violation(&format!("key-object:{}:not-constructible", provenance(how)), w.clone());
+            continue;
+        };
+        ctx.class(provenance(how));
+        for (nm, k) in [("public_key", kobj), ("sk.public_key", skobj.public_key), ("sk.to_public_key()", skobj.to_public_key())] {
+            for c2 in [false, true] {
+                ctx.eval();
+                let want = r2::encode(&pt, c2);
+                match guard(|| k.to_bytes(c2)) {
+                    Outcome::Ret(b) if b == want => {}
+                    o => ctx.violation(&format!("to_bytes({}):{}:{}", if c2 { "compressed" } else { "uncompressed" }, provenance(how), if o.is_ret() { "wrong-encoding" } else { o.class() }), json!({"case": w, "object": nm, "expected": hex::encode(&want)})),
+                }
+                ctx.eval();
+                match guard(|| k.to_hex_string(c2)) {
+                    Outcome::Ret(h) if h == hex::encode(&want) => {}
+                    o => ctx.violation(&format!("to_hex_string:{}:{}", provenance(how), if o.is_ret() { "wrong-encoding" } else { o.class() }), json!({"case": w, "object": nm})),
+                }
+            }
+            ctx.eval();
+            match guard(|| k.to_public_key_der()) {
+                Outcome::Ret(Ok(doc)) if doc.as_bytes() == der::spki_encode(&r2::encode(&pt, false)) => {}
+                o => ctx.violation(&format!("to_public_key_der:{}:{}", provenance(how), oc(&o)), json!({"case": w, "object": nm})),
+            }
+        }
+        ctx.eval();
+        match guard(|| skobj.to_pkcs8_der()) {
+            Outcome::Ret(Ok(doc)) => {
+                let okd = matches!(der::pkcs8_decode(doc.as_bytes()), Some((dd, pubb)) if dd == r2::b32(d) && pubb.as_deref().map(|p| r2::decode(p)) == Some(Some(pt.clone())));
+                if !okd {
+                    ctx.violation(&format!("to_pkcs8_der:{}:document-carries-other-key", provenance(how)), w.clone());
+                }
+            }
+            o => ctx.violation(&format!("to_pkcs8_der:{}:{}", provenance(how), oc(&o)), w.clone()),
+        }
+    }
     // ---- reference-built SPKI / PKCS#8 documents decode
     ctx.eval();
     let spki = der::spki_encode(&r2::encode(&pt, false));
@@ -262,7 +301,7 @@ pub fn run(ctx: &mut Ctx) {
     for (n, ok) in r2::selftest() {
         ctx.selftest(&n, ok);
     }
-    ctx.require(&["edge_key", "random_key", "pub_coordinate_leading_zero_byte", "y_odd", "y_even", "pub_sec1", "pub_hex", "pub_spki", "priv_bytes", "priv_hex", "priv_pkcs8", "openssl_pkcs8", "openssl_spki", "openssl_sm2cipher", "asn1_encrypt", "asn1_decrypt", "asn1_zero_coord", "asn1_top_bit_set", "asn1_top_bit_clear", "reject_offcurve", "reject_coordinate_ge_p", "reject_coordinate_eq_p", "reject_wrong_length", "reject_wrong_pc_byte", "reject_priv_wrong_length"]);
+    ctx.require(&["edge_key", "random_key", "pub_coordinate_leading_zero_byte", "y_odd", "y_even", "pub_sec1", "pub_hex", "pub_spki", "priv_bytes", "priv_hex", "priv_pkcs8", "openssl_pkcs8", "openssl_spki", "openssl_sm2cipher", "asn1_encrypt", "asn1_decrypt", "asn1_zero_coord", "asn1_top_bit_set", "asn1_top_bit_clear", "reject_offcurve", "reject_coordinate_ge_p", "reject_coordinate_eq_p", "reject_wrong_length", "reject_wrong_pc_byte", "reject_priv_wrong_length", "key_from_gen_keypair", "key_with_jacobian_public_point"]);
     let c = r2::curve();
     // ---- key round trips
     let n = ctx.n(150, 6000);
